@@ -506,6 +506,38 @@ func c20ConcScenarios() []concScenario {
 			})
 		}
 	}
+	// ONE chain evaluated by two threads at the same time (a Checker has no documented restriction to one evaluation at a time, and
+	// its steps are only read by CheckFailed): each evaluation behaves as if it were alone
+	for i := range chains {
+		chain := chains[i]
+		out = append(out, concScenario{
+			Name: fmt.Sprint("one chain ", c20Names(chain), " evaluated by two threads"),
+			Build: func() (*world.World, []func() *world.Reply) {
+				t := &c20Trace{perThread: make([][]uint16, 2)}
+				c := c20Build(chain, t)
+				body := func(th int) func() *world.Reply {
+					return func() *world.Reply {
+						got := c.CheckFailed()
+						return &world.Reply{Status: map[bool]int{false: 200, true: 400}[got], Body: traceBytes(t.perThread[th])}
+					}
+				}
+				return dummyWorld(), []func() *world.Reply{body(0), body(1)}
+			},
+			Judge: func(_ *world.World, reps []*world.Reply, _ *sched.Exec) []concFinding {
+				var fs []concFinding
+				for t, rep := range reps {
+					if rep.Panic != "" {
+						fs = append(fs, concFinding{Clause: "chain-evaluation-panics", Thread: t, Detail: rep.Panic})
+						continue
+					}
+					if cl := c20Check(chain, rep.Status == 400, bytesTrace(rep.Body)); cl != "" {
+						fs = append(fs, concFinding{Clause: "shared-chain/" + cl, Thread: t, Detail: c20TraceStr(bytesTrace(rep.Body))})
+					}
+				}
+				return fs
+			},
+		})
+	}
 	return out
 }
 
